@@ -75,6 +75,9 @@ def special_grammars():
     out.append(('kwnames', grammar(rule('s', seq(call('class'), call('def'))), rule('class', a), rule('def', opt(b)))))
     out.append(('params', grammar(rule('s', seq(call('y'), call('y'))), rule('y', alt(a, b), params=['T', '1']))))
     out.append(('named-dictkeys', grammar(rule('s', seq(named('items', a), named('keys', opt(b)))))))
+    # characters that the source generator must carry verbatim into the generated regex: a literal TAB, a non-ASCII letter
+    out.append(('tab-in-pattern', grammar(rule('s', seq(pat(['a'], 1, False), pat(['\t'], 1, True), pat(['b'], 1, False))))))
+    out.append(('tab-class', grammar(rule('s', seq(call('A'), star(call('A')))), rule('A', seq(pat(['a', 'b'], 1, True), pat(['\t', ' '], 0, True))))))
     out.append(('isname', grammar(rule('s', star(call('y'))), rule('y', pat(['a', 'b'], 1, True), isname=True), keywords=['ab', 'b'])))
     return out
 
@@ -107,7 +110,7 @@ def universe(tier, seed):
 def run(tier):
     ck = Check('C02', tier)
     gs = universe(tier, ck.seed)
-    texts = all_texts(['a', 'b', ' '], 3) + [list(t) for t in ['abab', 'a b a', 'aab ', 'A b', 'aB', 'a\tb', 'ab b']]
+    texts = all_texts(['a', 'b', ' '], 3) + [list(t) for t in ['abab', 'a b a', 'aab ', 'A b', 'aB', 'a\tb', 'ab b', 'a\t\tb', 'ab\t a', 'a\t']]
     cut_texts = all_texts(['a', 'b', 'c'], 4) + [list('qabc'), list('qaa'), list('qac')]
     items = []
     for i, (kind, g) in enumerate(gs):
